@@ -120,6 +120,26 @@ fn map_scenarios() -> Result<usize, String> {
     Ok(count)
 }
 
+#[starlark::starlark_module]
+fn probe_globals(builder: &mut starlark::environment::GlobalsBuilder) {
+    /// name of Evaluator::call_stack_top_frame() as seen from inside a native function
+    fn top_frame_name(eval: &mut Evaluator) -> anyhow::Result<String> {
+        Ok(eval
+            .call_stack_top_frame()
+            .map_or("<none>".to_owned(), |f| f.name))
+    }
+    /// names of the frames of Evaluator::call_stack(), outermost first
+    fn stack_names(eval: &mut Evaluator) -> anyhow::Result<String> {
+        Ok(eval
+            .call_stack()
+            .into_frames()
+            .into_iter()
+            .map(|f| f.name)
+            .collect::<Vec<_>>()
+            .join(">"))
+    }
+}
+
 fn first_line(s: &str) -> String {
     s.lines().next().unwrap_or("").to_owned()
 }
@@ -143,6 +163,41 @@ fn main() {
                     Err(_) => println!("ERR"),
                 }
             }
+        }
+        Some("evalseq") => {
+            // verif_replay evalseq <src1> <src2> ...: evaluate the sources one after the other in ONE module
+            // (a fresh Evaluator each, as an embedder re-using a module would); prints one result per source
+            Module::with_temp_heap(|module| {
+                let globals = Globals::extended_internal();
+                for (i, src) in args[2..].iter().enumerate() {
+                    let r = std::panic::catch_unwind(std::panic::AssertUnwindSafe(|| {
+                        let ast = AstModule::parse(&format!("step{i}.star"), src.clone(), &Dialect::Extended).unwrap();
+                        let mut eval = Evaluator::new(&module);
+                        match eval.eval_module(ast, &globals) {
+                            Ok(v) => format!("OK {}", v.to_repr()),
+                            Err(e) => format!("ERR {}", first_line(&format!("{:#}", e.kind()))),
+                        }
+                    }));
+                    println!("{}", r.unwrap_or_else(|_| "PANIC".to_owned()));
+                }
+                Ok::<(), anyhow::Error>(())
+            })
+            .unwrap();
+        }
+        Some("topframe") => {
+            // the top frame reported by the evaluator from inside nested calls
+            let src = "def g():\n    return (top_frame_name(), stack_names())\ndef f():\n    return g()\nf()\n";
+            Module::with_temp_heap(|module| {
+                let globals = starlark::environment::GlobalsBuilder::standard().with(probe_globals).build();
+                let ast = AstModule::parse("replay.star", src.to_owned(), &Dialect::Extended).unwrap();
+                let mut eval = Evaluator::new(&module);
+                match eval.eval_module(ast, &globals) {
+                    Ok(v) => println!("OK {}", v.to_repr()),
+                    Err(e) => println!("ERR {}", first_line(&format!("{:#}", e.kind()))),
+                }
+                Ok::<(), anyhow::Error>(())
+            })
+            .unwrap();
         }
         Some("mapops") => match std::panic::catch_unwind(map_scenarios) {
             Ok(Ok(n)) => println!("OK {} scenarios agree with the list model", n),
